@@ -3,21 +3,21 @@
 # 1. demo passes on a clean scratch worktree, 2. patch applies, 3. repo test-suite still passes, 4. demo fails with the patch.
 set -u
 id="$1"; k="$2"; shift 2
-src=/tmp/seed/$id-out
+src=${SEED_ROOT:-/tmp/seed}/$id-out; tag="${SEED_TAG:-}"
 here="$(cd "$(dirname "${BASH_SOURCE[0]}")/.." && pwd)"
 d=$(mktemp -d /var/tmp/seedv-XXXXXX); rmdir "$d"
 git -C /repo worktree add -q --detach "$d" HEAD || exit 2
 trap 'git -C /repo worktree remove --force "$d" >/dev/null 2>&1; rm -rf "$d"' EXIT
 cd "$d"
-PYTHONPATH="$d" timeout 600 /venv/bin/python "$src/demo$k.py" > /tmp/seed/$id-out/clean$k.log 2>&1; rc_clean=$?
+PYTHONPATH="$d" timeout 600 /venv/bin/python "$src/demo$k.py" > $src/clean$k.log 2>&1; rc_clean=$?
 git apply "$src/patch$k.diff" || { echo "SEED $id-$k APPLY-FAILED"; exit 1; }
 tests=$(PYTHONPATH="$d" /venv/bin/python -m pytest -q -p no:cacheprovider --timeout=900 2>&1 | tail -1)
-PYTHONPATH="$d" timeout 600 /venv/bin/python "$src/demo$k.py" > /tmp/seed/$id-out/patched$k.log 2>&1; rc_patched=$?
+PYTHONPATH="$d" timeout 600 /venv/bin/python "$src/demo$k.py" > $src/patched$k.log 2>&1; rc_patched=$?
 echo "SEED $id-$k demo_clean=$rc_clean demo_patched=$rc_patched tests: $tests"
 ok=0
 if [ "$rc_clean" = 0 ] && [ "$rc_patched" != 0 ] && echo "$tests" | grep -q "51 passed" && ! echo "$tests" | grep -q failed; then ok=1; fi
 if [ $ok = 1 ]; then
-  dst="$here/seeded/$id-$k"; mkdir -p "$dst"
+  dst="$here/seeded/$id-$tag$k"; mkdir -p "$dst"
   cp "$src/patch$k.diff" "$dst/patch.diff"; cp "$src/demo$k.py" "$dst/demo.py"
   /venv/bin/python - "$src/meta$k.json" "$dst/meta.json" "$id" "$tests" "$rc_clean" "$rc_patched" <<'PY'
 import json, sys
@@ -35,7 +35,7 @@ m["confirmed"] = {"scratch_worktree": "git worktree of /repo HEAD under /var/tmp
                                "PYTHONPATH=<tree> /venv/bin/python demo.py (patched tree)"]}
 json.dump(m, open(dst, "w"), indent=1)
 PY
-  echo "SEED $id-$k KEPT -> seeded/$id-$k"
+  echo "SEED $id-$k KEPT -> seeded/$id-$tag$k"
 else
   echo "SEED $id-$k NOT-CONFIRMED"
 fi
